@@ -1124,6 +1124,16 @@ def check_C19(tier, seed, replay=None):
         g.compute_args()
         optg.append(g)
     optg += c09_idiom_groups(seed + 9, 20 if tier == "quick" else 200, len(groups) + 5000)
+    # dead rules that reference several rules nothing else uses: the optimizer removes them in rounds, releasing what they used
+    for fan in (2, 3, 4, 3, 2, 4):
+        g = Gram(len(groups) + 8000 + len(optg))
+        leafs = [g.choice([g.lit([F.A + j]), g.cls((F.B,), (), False, False)]) for j in range(fan)]
+        dead = g.seq([g.ref(3 + j) for j in range(fan)])
+        dead2 = g.choice([g.ref(2), g.ref(3)])
+        g.rules = [g.action(g.lit([F.A])), dead] + leafs + [dead2]
+        g.disp = [""] * len(g.rules)
+        g.compute_args()
+        optg.append(g)
     thr = F.random_groups(seed + 13, 40 if tier == "quick" else 300, F.RandCfg(depth=4, maxrules=3, throw=True), gi0=len(groups) + 9000)
     for g in thr:                  # recovery operators with several labels
         pth = os.path.join(d, "t%d.peg" % g.gi)
